@@ -27,14 +27,18 @@ vars == <<hdr, body, cap, off, len, buf, nops, tag, lastAct, bad>>
 HdrCap == 64
 
 \* ---------------- run-length encoded byte strings ----------------
-RECURSIVE RLen(_), RTrim(_, _), RChop(_, _), Norm(_)
+RECURSIVE RLen(_), RTrim(_, _), RChop(_, _)
 RLen(r) == IF r = <<>> THEN 0 ELSE Head(r)[2] + RLen(Tail(r))
-Norm(r) == IF r = <<>> THEN <<>>
-           ELSE IF Head(r)[2] = 0 THEN Norm(Tail(r))
-           ELSE LET t == Norm(Tail(r)) IN
-                IF t # <<>> /\ Head(t)[1] = Head(r)[1]
-                  THEN <<<<Head(r)[1], Head(r)[2] + Head(t)[2]>>>> \o Tail(t)
-                  ELSE <<Head(r)>> \o t
+\* (accumulator form: a LET-bound recursive call referenced several times is re-evaluated by TLC
+\*  at every reference, which is exponential)
+RECURSIVE NormAcc(_, _)
+NormAcc(acc, r) ==
+  IF r = <<>> THEN acc
+  ELSE IF Head(r)[2] = 0 THEN NormAcc(acc, Tail(r))
+  ELSE IF acc # <<>> /\ acc[Len(acc)][1] = Head(r)[1]
+    THEN NormAcc([acc EXCEPT ![Len(acc)] = <<@[1], @[2] + Head(r)[2]>>], Tail(r))
+    ELSE NormAcc(Append(acc, Head(r)), Tail(r))
+Norm(r) == NormAcc(<<>>, r)
 RTrim(r, n) == IF n = 0 \/ r = <<>> THEN r       \* drop n bytes from the front
                ELSE IF Head(r)[2] <= n THEN RTrim(Tail(r), n - Head(r)[2])
                ELSE <<<<Head(r)[1], Head(r)[2] - n>>>> \o Tail(r)
